@@ -343,9 +343,32 @@ class Walker:
                 for n in ast.walk(val):
                     if lib_call(n):
                         self.record_call(n, env, [ast.unparse(tgt)])
+                def opaque(v):
+                    # an attribute / subscript chain on top of a call reads like the same chain on a local holding the call
+                    # (`a, b = f(x).result` is `t = f(x); a = t.result[0]; b = t.result[1]`)
+                    if isinstance(v, ast.Attribute):
+                        o = opaque(v.value)
+                        return None if o is None else f"{o}.{v.attr}"
+                    if isinstance(v, ast.Call):
+                        return f"<{canon(v, env)[:60]}>"
+                    if simple(v):
+                        return canon(v, env)
+                    return None
+
+                if isinstance(val, (ast.Tuple, ast.List)) and len(val.elts) == len(tgt.elts) and all(isinstance(e, ast.Name) for e in tgt.elts):
+                    # `a, b = x, y` is `a = x; b = y` with both right-hand sides read before either name is bound
+                    new = {}
+                    for e, v in zip(tgt.elts, val.elts):
+                        new[e.id] = Sub(env).visit(copy.deepcopy(v)) if simple(v) else ast.Name(id=f"<{canon(v, env)[:60]}>", ctx=ast.Load())
+                    env.update(new)
+                    return env
+                chain = opaque(val) if isinstance(val, (ast.Attribute, ast.Name)) else None
                 for i, e in enumerate(tgt.elts):
                     if isinstance(e, ast.Name):
-                        env[e.id] = ast.Name(id=f"<{canon(val, env)[:50]}>#{i}", ctx=ast.Load())
+                        if chain is not None:
+                            env[e.id] = ast.Name(id=f"{chain}[{i}]", ctx=ast.Load())
+                        else:
+                            env[e.id] = ast.Name(id=f"<{canon(val, env)[:50]}>#{i}", ctx=ast.Load())
                 return env
             return env
         if isinstance(st, ast.If):
@@ -367,6 +390,10 @@ class Walker:
             callee, bind = self.ctor_locals[st.value.id]
             self.pos += 1
             self.sites.append({"cls": self.cls, "method": self.method, "callee": callee, "idx": 0, "bind": bind, "ret": [], "pos": self.pos})
+            return env
+        if isinstance(st, ast.Return) and isinstance(st.value, ast.Call) and lib_call(st.value):
+            # `return lib.f(...)` is `_r = lib.f(...); return _r`: an ordinary call site
+            self.record_call(st.value, env, ["<returned>"])
             return env
         if isinstance(st, ast.Return) and isinstance(st.value, ast.Call):
             self.pos += 1
